@@ -26,6 +26,7 @@ type c15Case struct {
 	A         []byte // client secret a, 256 bytes as handed to Hash
 	BSecret   *big.Int
 	Scenario  string // "right", "wrong", "arbitraryB"
+	ShortS    bool   // search a client secret whose shared secret s_a has a zero top byte
 	WrongPass []byte
 	ArbB      *big.Int
 }
@@ -70,6 +71,9 @@ func genC15(t *rapid.T) c15Case {
 		c.A[255] = byte(rapid.IntRange(1, 9).Draw(t, "aSmall"))
 	}
 	c.BSecret = new(big.Int).SetBytes(drawBytes(t, "b", 256))
+	// s_a < 2^2040 happens once in 256 random cases; "numbers ... padded to
+	// 2048 bits" matters exactly there, so a third of the cases force it.
+	c.ShortS = uniform(t, "shortSecret", 3) == 0
 	switch k := uniform(t, "scenario", 10); {
 	case k < 4:
 		c.Scenario = "right"
@@ -142,15 +146,33 @@ func TestC15(t *testing.T) {
 		if c.Scenario == "wrong" {
 			used = c.WrongPass
 		}
+		xu := x
+		if c.Scenario == "wrong" {
+			xu = ref.SRPX(used, c.Salt1, c.Salt2)
+		}
+		sClass := "s_a:full"
+		if c.ShortS {
+			// deterministic search from the drawn a: a, a+1, ... (a stays a
+			// 2048-bit value; the few cases where a+i overflows are skipped)
+			for i := 0; i < 6000; i++ {
+				if params.SRPSharedSecret(xu, a, B).BitLen() <= 2040 {
+					sClass = "s_a:short"
+					break
+				}
+				a.Add(a, big.NewInt(1))
+			}
+			if a.BitLen() > 2048 {
+				t.Skip("a overflowed 2048 bits")
+			}
+			a.FillBytes(c.A)
+		} else if params.SRPSharedSecret(xu, a, B).BitLen() <= 2040 {
+			sClass = "s_a:short"
+		}
 		ans, err := s.Hash(used, srpB, c.A, in)
 		if err != nil {
 			t.Fatalf("Hash(group %s, g=%d): %v", c.Group.Name, c.G, err)
 		}
 		// (1) equals the specification's value for the password that was used
-		xu := x
-		if c.Scenario == "wrong" {
-			xu = ref.SRPX(used, c.Salt1, c.Salt2)
-		}
 		wantA, wantM1 := params.SRPClientAnswer(xu, a, B)
 		if !bytes.Equal(ans.A, wantA) {
 			t.Fatalf("A mismatch (group %s g=%d): got %s want %s", c.Group.Name, c.G, hexShort(ans.A), hexShort(wantA))
@@ -168,7 +190,7 @@ func TestC15(t *testing.T) {
 		}
 		st.Case(fmt.Sprintf("%s/%d/%x/%x/%x/%x/%s", c.Group.Name, c.G, c.Password, c.Salt1, c.Salt2, c.A[224:], c.Scenario), true,
 			fmt.Sprintf("%s g=%d |pw|=%d |s1|=%d |s2|=%d %s %s", c.Group.Name, c.G, len(c.Password), len(c.Salt1), len(c.Salt2), c.Scenario, bForm),
-			"scenario:"+c.Scenario, "group:"+c.Group.Name, fmt.Sprintf("g=%d", c.G), bForm)
+			"scenario:"+c.Scenario, "group:"+c.Group.Name, fmt.Sprintf("g=%d", c.G), bForm, sClass)
 	})
 }
 
